@@ -534,6 +534,11 @@ def rule_overlap(chk: Check, view: AsyncView, rid: str):
     # arrives between the two must still be taken by this step
     nxt = [e for e in queue_ops(r, "q_ts_next_step", "append")]
     chk.floor("C03.tie", "next-step announcements to non-blocking inputs", len(nxt), 1)
+    # ... and is told only once that time has come (after the throttle and the step hand-off): with the wall clock the selector decides at
+    # once, so an earlier announcement closes the selection before the messages that arrive up to the step's start are in
+    waits = [x for x in r.events if x.kind == "call" and x.name in ("self.throttle", "self.push_step") and x.func == fi.qualname]
+    chk.add("C03.tie", "non-blocking selector is told the start time after the node has waited for it", len(waits) >= 2 and bool(nxt) and all(w.idx < e.idx for w in waits for e in nxt),
+            "q_ts_next_step.append for the non-blocking inputs must follow self.throttle(ts_start) and self.push_step() in push_phase_shift", chk.loc(fi, nxt[0].node if nxt else None))
     for e in nxt:
         ok = e.args and e.args[0] == ("tuple", (ap.args[0][1][0], start)) and flow.implies(e.guard, T.mk_not(_blocking_of(e)))
         chk.add("C03.tie", "non-blocking selector is given the step's actual start time", bool(ok), f"q_ts_next_step gets {T.show(e.args[0])[:160] if e.args else None}, expected (tick, ts_start) as queued "
